@@ -143,7 +143,7 @@ pub fn run_c09(out: &mut Out, rng: &mut Rng, tier: Tier) -> String {
             }
         }
     }
-    for &(nr, nc) in &LARGE[..3] {
+    for &(nr, nc) in LARGE[..3].iter().chain(VERY_LARGE.iter()) {
         for order in ORDERS {
             out.case(&format!("large reshape / resize shape={nr}x{nc} order={}", ord_ch(order)));
             out.nontrivial();
